@@ -54,6 +54,16 @@ def search(rep: C.Report, tier: str, broken):
     # add template points designed to hit the sentinels
     fams += [("template-weak:alpha small", models.BagEOS(ap=3.0, am=2.97, eps=0.002, Tn=1.0)),
              ("template-strong", models.BagEOS(ap=3.0, am=1.2, eps=0.8, Tn=1.0))]
+    # strongly supercooled bag models (alpha_n ~ 0.6 .. 3, T+ up to ~2 Tn at the smallest velocity): the general solver's vMin and the template's
+    # vMin are the same number computed by two root finders, so which initial guess the matching at vw = vMin gets must not depend on their rounding
+    strong = [(0.5861152296785911, 0.5906026662043081), (0.4583785204632266, 0.626339560799656), (0.17044267256886714, 0.7751693635672426),
+              (0.5, 0.5), (0.7, 0.5), (0.3, 0.6)]
+    for _ in range(4 if tier == "quick" else 60):
+        strong.append((r.uniform(0.15, 0.9), r.uniform(0.47, 0.85)))
+    for psi_, Tn_ in strong:
+        e_ = models.BagEOS(ap=3.0, am=3.0 * psi_, eps=1.0 - psi_, Tn=Tn_)
+        if float(e_.alpha(Tn_)) > 0.45:
+            fams.append((f"bag-strongly-supercooled:psi={psi_!r},Tn/Tc={Tn_!r},alpha={float(e_.alpha(Tn_)):.3f}", e_))
     _manager_scan(rep, tier)
     for name, th in fams:
         try:
